@@ -111,3 +111,16 @@ Example C28_example : exists d, find_desc "init-ballot-fact-v0.0.1" descs = Some
   valid (fun b => b) d [("h", [5%N; 6%N]); ("point", [5%N]); ("proposal", [6%N])] = true /\
   valid (fun b => b) d (set "proposal" [7%N] [("h", [5%N; 6%N]); ("point", [5%N]); ("proposal", [6%N])]) = false.
 Proof. eexists. split; [vm_compute; reflexivity|]. repeat split; vm_compute; reflexivity. Qed.
+
+(* Known finding (class blockmap-item-type-not-signed): the bytes a block map signs are a function of the
+   manifest hash and of the multiset of item checksums only; re-labelling the type of any item leaves them
+   unchanged (for every sorting function `srt` applied to the checksums). *)
+Theorem C28_blockmap_item_type_refuted :
+  (forall (srt : list (list N) -> list (list N)) mh f items,
+     mh ++ concat (srt (bm_checksums (retype f items))) = mh ++ concat (srt (bm_checksums items)))%list /\
+  exists f items, retype f items <> items.
+Proof.
+  split.
+  - intros srt mh f items. unfold bm_checksums, retype. rewrite map_map. reflexivity.
+  - exists (fun _ => "map"), [("operations", [1%N])]. discriminate.
+Qed.
